@@ -25,6 +25,13 @@ type c07Mod struct {
 type c07Pair struct {
 	L W `json:"l"`
 	R W `json:"r"`
+	// Build: "" every node an object of its own; "dag" structurally equal subtrees are ONE node object, inside each
+	// document and between the two (a shared block attached under several keys, the same item appended twice);
+	// "dag-each" the same, no objects shared between the two documents.
+	Build string `json:"build,omitempty"`
+	// EditsL: after the first round of Diff calls L is edited in place (domhist.go) and everything is checked again on
+	// the content it holds then ("for all pairs of documents" includes documents that were diffed and edited before).
+	EditsL []dhEdit `json:"editsL,omitempty"`
 }
 
 // c07Layers: L and R are wire containers whose children are the layer documents.
@@ -35,7 +42,7 @@ type c07Layers struct {
 
 func init() {
 	register(&Prop{ID: "C07", Run: c07Run,
-		Rule: "pairs of root containers over path-safe keys (two key pools, one with keys such as a / a-b / aB / a_ whose paths interleave with a. and a[ in byte order): R is L after 0-4 random local edits (key added/removed, leaf changed, kind changed, list edited), or an independent document, or a copy, or a copy differing in exactly one scalar by a confusable pair (same number under another Go type, neighbouring integers beyond 2^53, a value and its printed text); overlay cases hold 0-3 named layers per side; domdiff cases go through the pipeline template engine. A pair is non-trivial when Diff(L,R) is non-empty or both documents have more than one node; distinct = distinct canonical case JSON (hash).",
+		Rule: "pairs of root containers over path-safe keys (two key pools, one with keys such as a / a-b / aB / a_ whose paths interleave with a. and a[ in byte order): R is L after 0-4 random local edits (key added/removed, leaf changed, kind changed, list edited), or an independent document, or a copy, or a copy differing in exactly one scalar by a confusable pair (same number under another Go type, neighbouring integers beyond 2^53, a value and its printed text); overlay cases hold 0-3 named layers per side; 900 pairs in which a composite subtree of L occurs at two or three positions and is ONE node object there (R lacks a key above it, is empty, independent, or a near miss; sides swapped one time in three); 500 pairs whose L is diffed, edited in place 1-4 times (AddValue / Remove / Set / MustSet / Append / Clear through nested builders, Lookup, the root's path API) and diffed again against the content it must hold then and against a freshly built document; the sequence returned by the first call is re-read after twenty later calls; domdiff cases go through the pipeline template engine. A pair is non-trivial when Diff(L,R) is non-empty or both documents have more than one node; distinct = distinct canonical case JSON (hash).",
 		Assumptions: []string{"scalars are NaN-free and -0-free, so cmp.Equal on leaves coincides with equality of (Go type, fmt.Sprint) pairs",
 			"keys are non-empty over [A-Za-z0-9_-] (path-safe); Lean's String order (code points) equals Go's byte order on these ASCII paths",
 			"the statement's 'Delete immediately followed by Adds' is read as the quantifier text spells it out: the sequence is sorted by path and, among equal paths, the Delete precedes the Add; with a sibling key such as a-b or aB the block Delete a / Add a[0] is not contiguous after sorting (Delete a, Add a-b, Add a[0])"}})
@@ -73,7 +80,7 @@ func c07GenPair(r *rand.Rand) c07Pair {
 	if r.Intn(2) == 0 {
 		l, rr = rr, l
 	}
-	return c07Pair{l, rr}
+	return c07Pair{L: l, R: rr}
 }
 
 func c07Run(c *Ctx) {
@@ -91,8 +98,51 @@ func c07Run(c *Ctx) {
 		g.PList += 0.2
 		if l, rr, ok := withTwins(r, g.Doc(r)); ok {
 			c.Dist("pair:one-confusable-scalar")
-			c.Do("pair", c07Pair{l, rr})
+			c.Do("pair", c07Pair{L: l, R: rr})
 		}
+	}
+	for i := 0; i < c.N(900); i++ {
+		// one composite subtree occurs at two or three positions of L (built as ONE node object: a shared block), and R
+		// lacks a key above it, differs in the list that holds it, or holds another kind there — the regions Diff
+		// flattens in one go
+		c.Tick()
+		g := c07Gen(r)
+		l := g.Doc(r)
+		for k, n := 0, 1+r.Intn(2); k < n; k++ {
+			l = c07Dup(r, g, l)
+		}
+		var rr W
+		switch r.Intn(6) {
+		case 0:
+			rr = map[string]any{"m": map[string]any{}}
+		case 1, 2:
+			rr = deepCopyW(l)
+			if m, ok := wireCont(rr); ok && len(m) > 0 {
+				delete(m, pick(r, sortedKeys(m)))
+			}
+		case 3:
+			rr = g.Doc(r)
+		default:
+			rr = deepCopyW(l)
+			for k, n := 0, 1+r.Intn(3); k < n; k++ {
+				rr = g.Mutate(r, rr)
+			}
+		}
+		if r.Intn(3) == 0 {
+			l, rr = rr, l
+		}
+		c.Dist("pair:shared-node-objects")
+		c.Do("pair", c07Pair{L: l, R: rr, Build: pick(r, []string{"dag", "dag", "dag-each"})})
+	}
+	for i := 0; i < c.N(500); i++ {
+		// L has a history: diffed, edited in place, diffed again
+		c.Tick()
+		p := c07GenPair(r)
+		g := c07Gen(r)
+		g.ListMax = 5
+		p.EditsL = dhGenEdits(r, g, p.L, 1+r.Intn(4))
+		c.Dist("pair:L-with-history")
+		c.Do("pair", p)
 	}
 	names := []string{"base", "dev", "prod"}
 	for i := 0; i < c.N(500); i++ {
@@ -118,6 +168,54 @@ func c07Run(c *Ctx) {
 		c.Tick()
 		c.Do("domdiff", c07GenPair(r))
 	}
+}
+
+// c07Dup returns a copy of w in which one composite subtree occurs once more: under another key of the same
+// container, appended to the list that holds it, or under a key of the root.
+func c07Dup(r *rand.Rand, g *DocGen, w W) W {
+	var ps []dhPos
+	dhPositions(w, []any{}, &ps)
+	var cands []dhPos
+	for _, p := range ps {
+		if len(p.at) > 0 {
+			cands = append(cands, p)
+		}
+	}
+	if len(cands) == 0 {
+		return w
+	}
+	// prefer subtrees that hold something
+	p := pick(r, cands)
+	for try := 0; try < 4 && p.n == 0 && len(p.keys) == 0; try++ {
+		p = pick(r, cands)
+	}
+	sub, ok := dhGet(w, p.at)
+	if !ok {
+		return w
+	}
+	parent := p.at[:len(p.at)-1]
+	if r.Intn(4) == 0 {
+		parent = []any{}
+	}
+	out, ok := dhUpdate(w, parent, func(x W) (W, bool) {
+		if l, isList := x.([]any); isList {
+			return append(append([]any{}, l...), deepCopyW(sub)), true
+		}
+		c, isCont := wireCont(x)
+		if !isCont {
+			return nil, false
+		}
+		m := map[string]any{}
+		for k, v := range c {
+			m[k] = v
+		}
+		m[pick(r, g.Keys)] = deepCopyW(sub)
+		return map[string]any{"m": m}, true
+	})
+	if !ok {
+		return w
+	}
+	return out
 }
 
 func c07ModsWire(ms []diff.Modification) []c07Mod {
@@ -315,6 +413,70 @@ func c07CheckPositions(c *Ctx, p c07Pair, ms []c07Mod) {
 	}
 }
 
+// c07CheckPair evaluates every clause of the property on one pair: p holds the content the two documents must have
+// now, l and r are the live documents.
+func c07CheckPair(c *Ctx, p c07Pair, l, r dom.Container, label string, withModel bool) bool {
+	fresh := func(w W) dom.ContainerBuilder { return wireContainer(w) }
+	first := diff.Diff(l, r)
+	ms := c07ModsWire(*first)
+	ll := c07ModsWire(*diff.Diff(l, l))
+	rr := c07ModsWire(*diff.Diff(r, r))
+	lflat, rflat := flattenWire(l), flattenWire(r)
+	runs := [][]c07Mod{}
+	for i := 0; i < 20; i++ {
+		// fresh containers as well as the same ones: map layout and iteration both vary
+		if i%2 == 0 {
+			runs = append(runs, c07ModsWire(*diff.Diff(l, r)))
+		} else {
+			runs = append(runs, c07ModsWire(*diff.Diff(fresh(p.L), fresh(p.R))))
+		}
+	}
+	// the sequence returned first is still what it was after all the later calls
+	firstNow := c07ModsWire(*first)
+	same := canon(p.L) == canon(p.R)
+	if len(ms) > 0 || (wireSize(p.L) > 1 && wireSize(p.R) > 1) {
+		c.Nontrivial()
+	}
+	if label == "" {
+		for _, m := range ms {
+			c.Dist("mod:" + m.Ty)
+		}
+		switch {
+		case len(ms) == 0:
+			c.Dist("pair:diff-empty")
+		case len(ms) <= 3:
+			c.Dist("pair:diff-1..3")
+		default:
+			c.Dist("pair:diff-4+")
+		}
+	}
+	ok := c.Direct("diff-self-empty"+label, len(ll) == 0 && len(rr) == 0, map[string]any{"Diff(L,L)": ll, "Diff(R,R)": rr})
+	ok = c.Direct("equal-documents-give-empty-diff"+label, !same || len(ms) == 0, ms) && ok
+	ok = c.Direct("empty-diff-implies-same-flatten"+label, len(ms) != 0 || canon(lflat) == canon(rflat),
+		map[string]any{"Flatten(L)": lflat, "Flatten(R)": rflat}) && ok
+	if label == "" {
+		c07CheckSeq(c, ms)
+	}
+	stable := true
+	for _, x := range runs {
+		if canon(x) != canon(ms) {
+			stable = false
+		}
+	}
+	ok = c.Direct("repeated-calls-equal"+label, stable, map[string]any{"first": ms, "runs": runs}) && ok
+	ok = c.Direct("earlier-result-unchanged-by-later-calls"+label, canon(firstNow) == canon(ms), map[string]any{"then": ms, "now": firstNow}) && ok
+	ref := c07RefDiff(p.L, p.R)
+	ok = c.Direct("exactly-the-stated-modifications(reference)"+label, canon(ms) == canon(ref), map[string]any{"Diff": ms, "reference": ref}) && ok
+	if label == "" {
+		c07CheckPositions(c, p, ms)
+	}
+	if withModel {
+		m := c.Model("diff", map[string]any{"l": p.L, "r": p.R})
+		c.Corr("diff", map[string]any{"mods": ms, "ll": ll, "rr": rr}, m)
+	}
+	return ok
+}
+
 type c07TplAction struct {
 	tmpl string
 	data map[string]interface{}
@@ -351,59 +513,62 @@ func c07Eval(c *Ctx, kind string, raw []byte) {
 			c.Dist("pair:not-a-document(skipped)")
 			return
 		}
-		var ms, ll, rr []c07Mod
-		var lflat, rflat []any
-		runs := [][]c07Mod{}
+		for _, e := range p.EditsL {
+			if e.V != nil && !c05KeysOK(e.V) {
+				return
+			}
+		}
+		if p.Build != "" {
+			c.Dist("pair:build=" + p.Build)
+		}
 		out, txt := guard(func() {
-			l, r := wireContainer(p.L), wireContainer(p.R)
-			ms = c07ModsWire(*diff.Diff(l, r))
-			ll = c07ModsWire(*diff.Diff(l, l))
-			rr = c07ModsWire(*diff.Diff(r, r))
-			lflat, rflat = flattenWire(l), flattenWire(r)
-			for i := 0; i < 20; i++ {
-				// fresh containers as well as the same ones: map layout and iteration both vary
-				if i%2 == 0 {
-					runs = append(runs, c07ModsWire(*diff.Diff(l, r)))
-				} else {
-					runs = append(runs, c07ModsWire(*diff.Diff(wireContainer(p.L), wireContainer(p.R))))
+			var l, r dom.ContainerBuilder
+			var d *dhDoc
+			switch p.Build {
+			case "dag":
+				memo := map[string]dom.Node{}
+				l, r = heapBuildDag(p.L, memo).(dom.ContainerBuilder), heapBuildDag(p.R, memo).(dom.ContainerBuilder)
+			case "dag-each":
+				l, r = heapBuildDag(p.L, map[string]dom.Node{}).(dom.ContainerBuilder), heapBuildDag(p.R, map[string]dom.Node{}).(dom.ContainerBuilder)
+			default:
+				d = dhNew(p.L, nil)
+				l, r = d.root, wireContainer(p.R)
+			}
+			if !c07CheckPair(c, c07Pair{L: p.L, R: p.R}, l, r, "", true) || d == nil || len(p.EditsL) == 0 {
+				return
+			}
+			executed := 0
+			for i, e := range p.EditsL {
+				// read before every edit (through the read APIs Diff itself uses, and the others)
+				if !dhReport(c, "hist:", i, d.reads(dhReadOpts{Light: true})) {
+					return
+				}
+				st := d.apply(e)
+				if st == "skip" {
+					continue
+				}
+				executed++
+				if !c.Direct("edit-executes", st == "ok", map[string]any{"edit": e, "result": st}) {
+					return
 				}
 			}
-		})
-		if !c.Direct("no-panic", out == "ok", txt) {
-			return
-		}
-		same := canon(p.L) == canon(p.R)
-		if len(ms) > 0 || (wireSize(p.L) > 1 && wireSize(p.R) > 1) {
-			c.Nontrivial()
-		}
-		for _, m := range ms {
-			c.Dist("mod:" + m.Ty)
-		}
-		switch {
-		case len(ms) == 0:
-			c.Dist("pair:diff-empty")
-		case len(ms) <= 3:
-			c.Dist("pair:diff-1..3")
-		default:
-			c.Dist("pair:diff-4+")
-		}
-		c.Direct("diff-self-empty", len(ll) == 0 && len(rr) == 0, map[string]any{"Diff(L,L)": ll, "Diff(R,R)": rr})
-		c.Direct("equal-documents-give-empty-diff", !same || len(ms) == 0, ms)
-		c.Direct("empty-diff-implies-same-flatten", len(ms) != 0 || canon(lflat) == canon(rflat),
-			map[string]any{"Flatten(L)": lflat, "Flatten(R)": rflat})
-		c07CheckSeq(c, ms)
-		stable := true
-		for _, x := range runs {
-			if canon(x) != canon(ms) {
-				stable = false
+			if executed == 0 {
+				return
 			}
-		}
-		c.Direct("repeated-calls-equal", stable, map[string]any{"first": ms, "runs": runs})
-		ref := c07RefDiff(p.L, p.R)
-		c.Direct("exactly-the-stated-modifications(reference)", canon(ms) == canon(ref), map[string]any{"Diff": ms, "reference": ref})
-		c07CheckPositions(c, p, ms)
-		m := c.Model("diff", map[string]any{"l": p.L, "r": p.R})
-		c.Corr("diff", map[string]any{"mods": ms, "ll": ll, "rr": rr}, m)
+			c.Dist("pair:L-edited-between-diffs")
+			if !dhReport(c, "hist:", executed, d.reads(dhReadOpts{Light: true})) {
+				return
+			}
+			const label = "(L edited in place since the last Diff)"
+			if !c07CheckPair(c, c07Pair{L: d.exp, R: p.R}, l, r, label, false) {
+				return
+			}
+			// the edited document against a freshly built document of the same content: no difference, either way
+			fresh := wireContainer(d.exp)
+			a, b := c07ModsWire(*diff.Diff(l, fresh)), c07ModsWire(*diff.Diff(fresh, l))
+			c.Direct("equal-documents-give-empty-diff"+label, len(a) == 0 && len(b) == 0, map[string]any{"Diff(L,fresh)": a, "Diff(fresh,L)": b, "L must hold": d.exp})
+		})
+		c.Direct("no-panic", out == "ok", txt)
 	case "overlay":
 		var p c07Layers
 		if err := json.Unmarshal(raw, &p); err != nil {
@@ -438,6 +603,10 @@ func c07Eval(c *Ctx, kind string, raw []byte) {
 				return ov
 			}
 			lo, ro := build(lm), build(rm)
+			// the same overlay document on both sides: no difference in any layer
+			for k, ms := range diff.OverlayDocs(lo, lo) {
+				c.Direct("overlaydocs-self-empty", len(*ms) == 0, map[string]any{"layer": k, "mods": c07ModsWire(*ms)})
+			}
 			res := diff.OverlayDocs(lo, ro)
 			for _, k := range sortedKeys(res) {
 				got[k] = c07ModsWire(*res[k])
